@@ -15,7 +15,16 @@ ARR_NAMES = ['xs', 'ys', 'zs', 'bs', 'ss', 'ws', 'items', 'values', 'ranges', 'n
 MSG_NAMES = ['m', 'n', 'hdr', 'pose', 'twist', 'info', 'child']
 MSGARR_NAMES = ['ms', 'ns', 'poses', 'points']
 CONST_NAMES = ['K', 'MAXV', 'MODE_A', 'MODE_B', 'LIMIT']
-TY = {BOOL: 1, NUM: 2, STR: 4}
+class _LiveTypes(dict):
+    """kind -> numeric value of the live `DataType` member (the numbering is an implementation detail of /repo)"""
+    def __missing__(self, k):
+        from hpl.types import DataType
+        v = {BOOL: DataType.BOOL, NUM: DataType.NUMBER, STR: DataType.STRING}[k].value
+        self[k] = int(v)
+        return self[k]
+
+
+TY = _LiveTypes()
 
 
 def gen_prim(rng, kind=None):
